@@ -205,7 +205,11 @@ def run(pid, tier="quick", exclude=()):
                     # test re-runs the harness body with the concrete values
                     hcopy = os.path.join(dst, "verif_harness", r["file"] + ".rs")
                     with open(hcopy, "a") as fh:
-                        fh.write("\n" + r["playback"] + "\n")
+                        # (the generated doc comment can wrap a long assertion text over two lines,
+                        # which does not compile: keep the test function only)
+                        pb = r["playback"]
+                        k = pb.find("#[test]")
+                        fh.write("\n" + (pb[k:] if k >= 0 else pb) + "\n")
                     tn = re.search(r"fn\s+(kani_concrete_playback_\w+)", r["playback"])
                     if tn:
                         p3 = subprocess.run(["cargo", "kani", "playback", "-Z", "concrete-playback", "--", tn.group(1)],
